@@ -561,6 +561,28 @@ def call_parts():
                      || final(fx).log == old(fx).log.push(GEffect::Enqueue { id, chan, ctx: c }).push(GEffect::CloseRx { chan }).push(GEffect::CancelMsg { id })), // @C03,C09
                '''),
         ]),
+        TypeItem(SRC, 'struct', 'NewClient'),
+        Impl('impl<Req, Resp> NewClient<Channel<Req, Resp>, RequestDispatch<Req, Resp>>', qual='client', parts=[
+            Fn(SRC, None, 'new', tags='C01,C11', canary=True,
+               rules=[
+                   Rule('R5:new-generics', r'pub fn new<Req, Resp, C>\(', 'pub fn new(', 1, where='sig', why='emitted as an associated function of the instantiated NewClient; the transport type parameter is erased (prelude model)'),
+                   Rule('R5:new-transport-param', r'transport: C,', 'transport: Transport<ClientMessage<Req>, Response<Resp>>,', 1, where='sig', why='transport type parameter erased (prelude model)'),
+                   Rule('R5:new-where', r'\s*where\s+C: Transport<ClientMessage<Req>, Response<Resp>>,', '', 1, where='sig', flags=re.M | re.S, why='bound of the erased type parameter'),
+                   Rule('R5:new-mpsc', r'mpsc::channel\(config\.pending_request_buffer\)', 'new_models::mpsc_channel(config.pending_request_buffer)', 1, where='body', why='prelude model of tokio mpsc::channel'),
+                   Rule('R5:new-cancellations', r'= cancellations\(\);', '= new_models::cancellations();', 1, where='body', why='prelude model of crate::cancellations::cancellations()'),
+                   Rule('R5:new-next-id', r'Arc::new\(AtomicUsize::new\(0\)\)', 'new_models::next_id_new()', 1, where='body', why='prelude model of the shared id counter'),
+                   Rule('R5:new-fuse', r'transport\.fuse\(\)', 'fuse_model(transport)', 1, where='body', why='A-sink: the transport model is the fused view'),
+               ],
+               pre='broadcast use vstd::std_specs::hash::group_hash_axioms;',
+               requires='!transport@.failed && !transport@.closed, // @core (a transport that has not failed or been closed yet)',
+               ensures='''
+                 // the induction base of the dispatch invariant: a new dispatch satisfies it, tracks nothing, has recorded no failure
+                 r.dispatch.inv() && r.dispatch.terminal_error is None && r.dispatch.in_flight_requests@ =~= Map::<u64, CEntry>::empty(), // @core:C01,C03,C09,C10,C11,C14
+                 r.dispatch.transport@ == transport@ && r.dispatch.config == config, // @C14
+                 // C01/C03: the handle feeds exactly the two queues its own dispatch drains
+                 r.client.to_dispatch.queue() == r.dispatch.pending_requests.queue() && r.client.cancellation.queue() == r.dispatch.canceled_requests.queue(), // @C01,C03
+               '''),
+        ]),
     ]
 
 ACCESSOR_GUARDS = [
